@@ -27,8 +27,9 @@ def jobs(tier):
         J.append(job(W, 'bc', 3, size=B, pres='list')); J.append(job(W, 'bc', 4, size=B, pres='list'))
     for B in (7, 10, 12, 15):
         J.append(job(W, 'bc', 5, size=B, pres='list', order='desc')); J.append(job(W, 'bc', 6, size=B, pres='list', order='desc', lo=1))
-    J.append(job(W, 'bc', 7, size=7, pres='list', order='desc', lo=1)); J.append(job(W, 'bc', 7, size=10, pres='list', order='desc', lo=1))
-    J.append(job(W, 'bc', 8, size=7, pres='list', order='desc', lo=1)); J.append(job(W, 'bc', 8, size=15, pres='list', order='desc', lo=1))
+    J.append(job(W, 'bc', 7, size=7, pres='list', order='desc', lo=1)); J.append(job(W, 'bc', 8, size=15, pres='list', order='desc', lo=1))
+    if tier == 'thorough':
+        J.append(job(W, 'bc', 7, size=10, pres='list', order='desc', lo=1)); J.append(job(W, 'bc', 8, size=7, pres='list', order='desc', lo=1))
     if tier == 'thorough':
         for alg in ('greedy', 'kk', 'ckk', 'snp', 'rnp'):
             J.append(job(W, alg, 5, size=3, order='desc')); J.append(job(W, alg, 4, size=3))
